@@ -101,9 +101,13 @@ DoCompile(s, n, d) == R([s EXCEPT !.nodes[n].memo = << Reads(s, n) >>, !.nodes[n
 \* ---------- actions ----------
 N == Len(st.nodes)
 Step(name, n, x, res) == st' = res.st /\ last' = [a |-> name, n |-> n, x |-> x, ret |-> res.ret]
-Derive == \E p \in 1..N, m \in Methods : N < MaxNodes /\ Count(Descr(st.nodes, p), m) < MaxRepeat /\ Step("Derive", p, m, DoDerive(st, p, m))
+\* (an unpickled statement carries its own copies of the Table objects: extending it with expressions over the program's tables
+\*  would mix two tables named alike - not a meaningful program, excluded)
+Derive == \E p \in 1..N, m \in Methods : N < MaxNodes /\ st.nodes[p].via # "pickle" /\ Count(Descr(st.nodes, p), m) < MaxRepeat /\ Step("Derive", p, m, DoDerive(st, p, m))
 Copy == \E p \in 1..N, how \in Hows : N < MaxNodes /\ st.nodes[p].via \notin Hows /\ Step("Copy", p, how, DoCopy(st, p, how))
-Compile == \E n \in 1..N, d \in Dialects : Step("Compile", n, d, DoCompile(st, n, d))
+\* the FIRST compilation of a node is an action (which dialect goes first, and when, relative to derivations and copies, is the
+\* hazard); every later compilation of every compiled node on every dialect is performed by the replay after each step
+Compile == \E n \in 1..N, d \in Dialects : ~st.nodes[n].comp /\ Step("Compile", n, d, DoCompile(st, n, d))
 Init == st = InitSt /\ last = [a |-> "init", n |-> 0, x |-> "-", ret |-> "ok"]
 Next == Derive \/ Copy \/ Compile
 Spec == Init /\ [][Next]_vars
